@@ -149,6 +149,21 @@ def strategy(tier):
 _SEEN = {}
 
 
+def _listing(mol, rnd):
+    """Atom lines, bond lines and file indices in drawn orders (indices a shuffled 1..n or sparse)."""
+    order = list(range(mol.n))
+    rnd.shuffle(order)
+    keys = list(range(1, mol.n + 1))
+    how = rnd.random()
+    if how < 0.4:
+        rnd.shuffle(keys)
+    elif how < 0.6:
+        keys = rnd.sample(range(1, 4 * mol.n + 10), mol.n)
+    border = list(range(mol.m))
+    rnd.shuffle(border)
+    return {"order": order, "keys": keys, "bond_order": border, "flips": [rnd.random() < 0.5 for _ in range(mol.m)]}
+
+
 def string_of(mol, rnd, route="graph"):
     pi = list(range(mol.n))
     rnd.shuffle(pi)
@@ -158,13 +173,14 @@ def string_of(mol, rnd, route="graph"):
         from ..lib import call, graph_from_molfile_text
         from ..render import render_v2000
 
-        style = {"seed": rnd.randrange(2**31), "per_line": rnd.choice([1, 3, 8]), "vary_per_line": rnd.random() < 0.5, "chg_by": rnd.choice(["mline", "auto"]), "stale_codes": rnd.random() < 0.5, "shuffle_props": True, "interleave": rnd.random() < 0.5}
-        return pipeline(call("read", graph_from_molfile_text, render_v2000(pm, None, style)))
+        style = {"seed": rnd.randrange(2**31), "per_line": rnd.choice([1, 3, 8]), "vary_per_line": rnd.random() < 0.5, "chg_by": rnd.choice(["mline", "auto"]), "stale_codes": rnd.random() < 0.5, "shuffle_props": True, "interleave": rnd.random() < 0.5,
+                 "dt": rnd.random() < 0.7}
+        return pipeline(call("read", graph_from_molfile_text, render_v2000(pm, _listing(pm, rnd), style)))
     if route == "v3000" and in_range:
         from ..lib import call, graph_from_molfile_text
         from ..render import render_v3000
 
-        return pipeline(call("read", graph_from_molfile_text, render_v3000(pm, None, {"seed": rnd.randrange(2**31), "split": "random", "prop_shuffle": True})))
+        return pipeline(call("read", graph_from_molfile_text, render_v3000(pm, _listing(pm, rnd), {"seed": rnd.randrange(2**31), "split": "random", "prop_shuffle": True, "dt": rnd.random() < 0.5})))
     return pipeline(mol_to_graph(pm))
 
 
